@@ -4,7 +4,7 @@
    statement: Registry/OpsetGen.v over Gen/OpsetMethods.v + Gen/OpsetSchemas.v. *)
 From Coq Require Import List String ZArith Bool.
 Import ListNotations.
-Require Import OV.Registry.OpsetMethod OV.Registry.OpsetMethodProofs OV.Registry.OpsetGen.
+Require Import OV.Registry.OpsetMethod OV.Registry.OpsetMethodProofs OV.Registry.OpsetEmit OV.Registry.OpsetEmitProofs OV.Registry.OpsetGen.
 
 (* Opset._prepare_inputs removes trailing None and nothing else: the result is a prefix, what was cut off
    is None only, and the result has no trailing None left (for every list). *)
@@ -57,11 +57,13 @@ Theorem C17_inherited_method_valid : forall reg m s N,
 Proof. exact inherited_method_valid. Qed.
 Print Assumptions C17_inherited_method_valid.
 
-(* General form: any registry and class set passing the computable test has the property. *)
-Theorem C17_registry_sound : forall reg cs,
-  registry_ok reg cs = true ->
+(* General form: any registry and class set passing the computable test has the property, for every
+   operator outside the claimed exemptions `ex` (s_deprecated: every deprecated schema; exempt_in l: the
+   deprecated schemas of the listed operators; no_exemption: none). *)
+Theorem C17_registry_sound : forall ex reg cs,
+  registry_ok ex reg cs = true ->
   forall c, In c cs ->
-  forall op s, dyn_getitem reg c op = Some s -> s_deprecated s = false ->
+  forall op s, dyn_getitem reg c op = Some s -> ex s = false ->
     (covered c = true -> exists m, static_lookup cs c op = Some m) /\
     forall m, static_lookup cs c op = Some m ->
       static_schema reg m = Some s /\ mirrors m s /\
@@ -71,10 +73,13 @@ Proof. exact registry_sound. Qed.
 Print Assumptions C17_registry_sound.
 
 (* THE PROPERTY on the code as it is now (Gen/* re-extracted on every check): for every generated class
-   OpsetN and every operator that onnx.defs resolves, non-deprecated, at (domain, N): the method visible on
-   the class (own or inherited) uses exactly that schema, mirrors it, and an eager call equals the bare node. *)
+   OpsetN and every operator that onnx.defs resolves at (domain, N) -- every live operator (C17_exemptions_
+   only_deprecated) and every deprecated one that is not in the regenerated exemption list: the method visible
+   on the class (own or inherited) uses exactly that schema, mirrors it, and an eager call equals the bare node.
+   The exemption list is the set of deprecated operators for which the deprecation-version class has no method
+   of its own; each one that inherits an older method is reported by the harness under its own key. *)
 Theorem C17_generated_classes_mirror_schemas : forall c, In c gen_classes ->
-  forall op s, dyn_getitem gen_schemas c op = Some s -> s_deprecated s = false ->
+  forall op s, dyn_getitem gen_schemas c op = Some s -> gen_exempt s = false ->
     (covered c = true -> exists m, static_lookup gen_classes c op = Some m) /\
     forall m, static_lookup gen_classes c op = Some m ->
       static_schema gen_schemas m = Some s /\ mirrors m s /\
@@ -86,7 +91,7 @@ Print Assumptions C17_generated_classes_mirror_schemas.
 (* Coverage: opset1..opset23 of the default domain and every ai.onnx.ml / preview class have a method for
    every live operator of their version. *)
 Theorem C17_coverage : forall c, In c gen_classes -> covered c = true ->
-  forall op s, dyn_getitem gen_schemas c op = Some s -> s_deprecated s = false ->
+  forall op s, dyn_getitem gen_schemas c op = Some s -> gen_exempt s = false ->
     exists m, static_lookup gen_classes c op = Some m.
 Proof. exact gen_coverage. Qed.
 Print Assumptions C17_coverage.
@@ -95,20 +100,101 @@ Print Assumptions C17_coverage.
    schema in eager mode (generated method) and in translation (opset[name]). *)
 Theorem C17_dynamic_lookup_agrees : forall c, In c gen_classes -> forall op,
     (dyn_contains gen_schemas c op = true <-> exists s, dyn_getitem gen_schemas c op = Some s) /\
-    (forall s, dyn_getitem gen_schemas c op = Some s -> s_deprecated s = false -> getattr_schema gen_schemas gen_classes c op = Some s) /\
+    (forall s, dyn_getitem gen_schemas c op = Some s -> gen_exempt s = false -> getattr_schema gen_schemas gen_classes c op = Some s) /\
     (dyn_getitem gen_schemas c op = None -> getattr_schema gen_schemas gen_classes c op = None /\ static_lookup gen_classes c op = None).
 Proof. exact gen_dynamic. Qed.
 Print Assumptions C17_dynamic_lookup_agrees.
 
-(* Not covered by the theorems above, and false: for an operator ONNX marks deprecated at version N the
-   inherited method still denotes the last live schema while opset[name] denotes the deprecated one
-   (witness in the shape of Upsample 9/10; the harness replays opset10.Upsample on the real code). *)
+Theorem C17_exemptions_only_deprecated : forall s, s_deprecated s = false -> gen_exempt s = false.
+Proof. exact gen_exempt_live. Qed.
+Print Assumptions C17_exemptions_only_deprecated.
+
+(* As read (generator skips deprecated schemas), and false: for an operator ONNX marks deprecated at
+   version N the inherited method still denotes the last live schema while opset[name] denotes the
+   deprecated one (witness in the shape of Upsample 9/10; the harness replays opset10.Upsample on the real
+   code for every operator in the exemption list). *)
 Theorem C17_deprecated_operator_inherited_refuted : exists reg cs c op m s,
-  registry_ok reg cs = true /\ In c cs /\
+  registry_ok s_deprecated reg cs = true /\ In c cs /\
   static_lookup cs c op = Some m /\ dyn_getitem reg c op = Some s /\
   s_deprecated s = true /\ static_schema reg m <> Some s.
 Proof. exact deprecated_gap. Qed.
 Print Assumptions C17_deprecated_operator_inherited_refuted.
+
+(* Repaired (the generator emits a method for a deprecated schema like for any other): a registry passing the
+   test with NO exemption has the property for every operator onnx.defs resolves, deprecated or not, and
+   opsetN.Op denotes the same schema through the static class (eager) and through Opset.__getitem__
+   (translation). *)
+Theorem C17_registry_sound_fixed : forall reg cs,
+  registry_ok no_exemption reg cs = true ->
+  forall c, In c cs ->
+  forall op s, dyn_getitem reg c op = Some s ->
+    getattr_schema reg cs c op = Some s /\
+    (covered c = true -> exists m, static_lookup cs c op = Some m) /\
+    forall m, static_lookup cs c op = Some m ->
+      static_schema reg m = Some s /\ mirrors m s /\
+      forall V (a : args V) pe ke, bind m a = Some (pe, ke) ->
+        exists n, call_method reg m a = Some n /\ n_inputs n = strip (a_pos a) /\ node_equiv s n (bare_node s a).
+Proof. exact registry_sound_fixed. Qed.
+Print Assumptions C17_registry_sound_fixed.
+
+(* ... its hypothesis is met by the repaired shape of the witness (Opset10 overrides Upsample from the
+   deprecation record), where the deprecated operator denotes the same schema both ways *)
+Theorem C17_deprecated_operator_fixed : 
+  registry_ok no_exemption ex_reg ex_classes_fixed = true /\
+  exists c op m s,
+    In c ex_classes_fixed /\ static_lookup ex_classes_fixed c op = Some m /\ dyn_getitem ex_reg c op = Some s /\
+    s_deprecated s = true /\ static_schema ex_reg m = Some s /\ getattr_schema ex_reg ex_classes_fixed c op = Some s.
+Proof. exact (conj ex_registry_fixed_ok deprecated_fixed). Qed.
+Print Assumptions C17_deprecated_operator_fixed.
+
+(* ... and on this tree: when the regenerated exemption list is empty, every operator is covered. *)
+Theorem C17_generated_classes_all_operators_when_repaired : gen_exempt_ops = [] ->
+  forall c, In c gen_classes -> forall op s, dyn_getitem gen_schemas c op = Some s ->
+    getattr_schema gen_schemas gen_classes c op = Some s /\
+    (covered c = true -> exists m, static_lookup gen_classes c op = Some m) /\
+    forall m, static_lookup gen_classes c op = Some m -> static_schema gen_schemas m = Some s /\ mirrors m s.
+Proof. exact gen_sound_when_repaired. Qed.
+Print Assumptions C17_generated_classes_all_operators_when_repaired.
+
+(* THE GENERATOR (opgen/onnx_opset_builder.py, modelled in Registry/OpsetEmit.v): for every schema passing
+   the stated well-formedness test (parameter names distinct and none of self/schema/op; a variadic input
+   is the last input) the emitted method passes the per-method test against that schema -- inputs in order,
+   then the attributes as keyword-only parameters with the schema defaults, each forwarded under its own
+   name -- and names a schema with the same (name, domain, since_version).
+   Not covered: the class skeleton (base class, __new__) and inheritance, which stay with the finite
+   registry statement; docstrings and type annotations. *)
+Theorem C17_generator_emits_mirroring_method : forall s, schema_wfb s = true ->
+  method_ok (emit_method s) s = true /\ mirrors (emit_method s) s.
+Proof. exact (fun s W => conj (emit_method_ok s W) (method_ok_mirrors _ _ (emit_method_ok s W))). Qed.
+Print Assumptions C17_generator_emits_mirroring_method.
+
+Theorem C17_generator_names_its_schema : forall reg s, In s reg ->
+  exists s', static_schema reg (emit_method s) = Some s' /\
+             s_name s' = s_name s /\ s_domain s' = s_domain s /\ s_since s' = s_since s.
+Proof. exact emit_resolves. Qed.
+Print Assumptions C17_generator_names_its_schema.
+
+(* Classes whose methods are what the model generator emits pass the per-method test by construction. *)
+Theorem C17_emitted_classes_ok : forall skip reg cs,
+  classes_emitted skip reg cs = true -> forallb schema_wfb reg = true ->
+  forall c, In c cs -> forall m, In m (c_methods c) ->
+    exists s, In s reg /\ s_domain s = c_domain c /\ s_since s = c_version c /\ skip s = false /\
+              m = emit_method s /\ method_ok m s = true /\
+              exists s', static_schema reg m = Some s' /\
+                         s_name s' = s_name s /\ s_domain s' = s_domain s /\ s_since s' = s_since s.
+Proof. exact classes_emitted_ok. Qed.
+Print Assumptions C17_emitted_classes_ok.
+
+(* The checked-in classes ARE the model generator's output on the installed onnx.defs (every schema is well
+   formed; equality of the method lists decided by evaluation on the regenerated data), so every one of the
+   ~630 checked-in methods satisfies method_ok as an instance of the generator theorem. *)
+Theorem C17_checked_in_methods_are_generated : forall c, In c gen_classes -> forall m, In m (c_methods c) ->
+  exists s, In s gen_schemas /\ s_domain s = c_domain c /\ s_since s = c_version c /\ gen_exempt s = false /\
+            m = emit_method s /\ method_ok m s = true /\
+            exists s', static_schema gen_schemas m = Some s' /\
+                       s_name s' = s_name s /\ s_domain s' = s_domain s /\ s_since s' = s_since s.
+Proof. exact gen_methods_by_generator. Qed.
+Print Assumptions C17_checked_in_methods_are_generated.
 
 (* The test is not vacuous: a wrong default fails it and does change what the call means. *)
 Theorem C17_wrong_default_detected :
